@@ -19,20 +19,24 @@
 (*          refers to is a date/time format (duration iff elapsed), for    *)
 (*          every encoding of the number.  The format an id refers to is   *)
 (*          the BrtFmt with that id if the part has one, else the built-in *)
-(*          format of that id.  A BrtFmt that redefines a built-in         *)
-(*          date/time id with a string of ANOTHER class is not generated   *)
-(*          (which of the two wins is not settled by the statement).       *)
+(*          format of that id -- including a BrtFmt that declares a string *)
+(*          of another class under a built-in date/time id (the style      *)
+(*          refers to what the workbook declares; xlsx and xls readers     *)
+(*          already did so).                                               *)
 (*  Reader: Xlsb::read_styles (number_formats map, then one CellFormat per *)
-(*          BrtXF of BrtBeginCellXFs: built-in class first, custom map     *)
-(*          second), cell_format (formats.get(iStyleRef)) and the value    *)
-(*          wrapping of next_cell.                                         *)
+(*          BrtXF of BrtBeginCellXFs), cell_format (formats.get(iStyleRef))*)
+(*          and the value wrapping of next_cell.                           *)
+(* DeclaredFirst = FALSE is read_styles as pinned: built-in class first,   *)
+(*   custom map second -- a declared format under a built-in date id was   *)
+(*   ignored; refuted by TLC (MC_XlsbStyles_asis_builtin.cfg).  TRUE =     *)
+(*   after the repair ee5c309 (custom map first).                          *)
 (* RkIntHonoursStyle = FALSE is next_cell as pinned: a BrtCellRk with fInt *)
 (*   and without fX100 yields DataRef::Int whatever the style says;        *)
 (*   refuted by TLC (MC_XlsbStyles_asis.cfg).  TRUE = after the repair.    *)
 (***************************************************************************)
 EXTENDS Naturals, Sequences, FiniteSets, TLC
 
-CONSTANT RkIntHonoursStyle
+CONSTANTS RkIntHonoursStyle, DeclaredFirst
 
 BuiltinClass(id) == IF id \in (14..22) \cup {45, 47} THEN "dt" ELSE IF id = 46 THEN "td" ELSE "o"
 Encs == {"real", "fnum", "rki", "rki100", "rkf", "rkf100"}
@@ -58,8 +62,10 @@ Formats(t) ==
   LET nf == NumberFormats(t.fmts, 1, <<>>) IN
   [i \in 1..Len(t.xfs) |->
      LET id == t.xfs[i] IN
-     IF BuiltinClass(id) # "o" THEN BuiltinClass(id)
-     ELSE IF id \in DOMAIN nf THEN nf[id] ELSE "o"]
+     IF DeclaredFirst
+       THEN (IF id \in DOMAIN nf THEN nf[id] ELSE BuiltinClass(id))
+       ELSE (IF BuiltinClass(id) # "o" THEN BuiltinClass(id)
+             ELSE IF id \in DOMAIN nf THEN nf[id] ELSE "o")]
 \* next_cell: cell_format = formats.get(iStyleRef); format_excel_f64_ref for every encoding
 \* except the plain RK integer
 AsIs(t, xf, enc) ==
